@@ -24,7 +24,7 @@ type Entry struct {
 	Mode    string // "file", "symlink", "dir", "device", "pipe", "irregular", "socket", "chardev"
 	Content []byte
 	Size    int64 // reported size; -1 = len(Content)
-	Read    string `json:",omitempty"` // how Open's reader delivers the content: "" at once; "eofdata" the last bytes together with io.EOF; "byte" one byte per call; "chunk" 7 bytes per call, the last with io.EOF
+	Read    string `json:",omitempty"` // how Open's reader delivers the content: "" at once; "eofdata" the last bytes together with io.EOF; "byte" one byte per call; "chunk" 7 bytes per call, the last with io.EOF; "errmid" half of the content, then an I/O error; "erropen" Open fails
 }
 
 func (e Entry) ReportedSize() int64 {
@@ -334,8 +334,11 @@ func (f File) Open() (io.ReadCloser, error) {
 	if f.E.Mode != "file" {
 		return nil, errors.New("not a regular file")
 	}
+	if f.E.Read == "erropen" {
+		return nil, ErrIO
+	}
 	if f.E.Read != "" {
-		return io.NopCloser(&oddReader{data: f.E.Content, how: f.E.Read}), nil
+		return io.NopCloser(&oddReader{data: f.E.Content, how: f.E.Read, left: len(f.E.Content) / 2}), nil
 	}
 	return io.NopCloser(bytes.NewReader(f.E.Content)), nil
 }
@@ -344,7 +347,11 @@ func (f File) Open() (io.ReadCloser, error) {
 type oddReader struct {
 	data []byte
 	how  string
+	left int // errmid: bytes still to deliver before the error
 }
+
+// ErrIO is what a failing file reports.
+var ErrIO = errors.New("input/output error (injected)")
 
 func (r *oddReader) Read(p []byte) (int, error) {
 	if len(p) == 0 {
@@ -352,6 +359,17 @@ func (r *oddReader) Read(p []byte) (int, error) {
 	}
 	max := len(p)
 	switch r.how {
+	case "errmid":
+		if r.left == 0 {
+			return 0, ErrIO
+		}
+		if max > r.left {
+			max = r.left
+		}
+		r.left -= max
+		n := copy(p[:max], r.data)
+		r.data = r.data[n:]
+		return n, nil
 	case "byte":
 		max = 1
 	case "chunk":
